@@ -30,7 +30,7 @@ func init() {
 			{ID: "C07.b", Title: "ATOMIC-ROTATION", Template: "T1+T3", MinInst: 2,
 				Rule: "the pool handed to the sequencing function is read, replaced by a fresh pool and published as inSequencing without an intervening Unlock; inSequencing is cleared only after the sequencing function returned",
 				Run:  c07b},
-			{ID: "C07.c", Title: "LOOKUP-THEN-INSERT", Template: "T1+T6", MinInst: 5,
+			{ID: "C07.c", Title: "LOOKUP-THEN-INSERT", Template: "T1+T3+T6", MinInst: 6,
 				Rule: "in addLeafToPool the insertion into pool.byHash is reachable only through the miss edges of the lookups in the current pool, the in-sequencing map and the cache, all with the key computed from the submitted leaf, with no Unlock in between",
 				Run:  c07c},
 			{ID: "C07.d", Title: "KEY-SCHEMA", Template: "T5", MinInst: 2,
@@ -309,6 +309,37 @@ func c07c(c *Ctx) {
 		c.Bad(f.Name+" critical section", f.Pos(pt.B.Nodes[pt.I]), "the pool lock can be released between the duplicate lookups and the insertion")
 	} else {
 		c.OK(f.Name+" critical section", "no Unlock before the insertion (lock released by defer)", []string{I.Pos()})
+	}
+	// ... and that critical section covers every lookup: the pool lock is in the must-lockset at each
+	// of the three lookups and at the insertion (a lookup made before taking the lock can be stale by
+	// the time the leaf is inserted: a whole sequencing round fits in the gap)
+	if recv := f.recvObj(); recv != nil {
+		mkey := fmt.Sprintf("%s.poolMu@%d", recv.Name(), recv.Pos())
+		ls := f.locksets(lockset{})
+		var pts []Site
+		pts = append(pts, I.Site)
+		pts = append(pts, f.Calls(Callee{pkgCtlog, "Log", "cacheGet"})...)
+		for _, l := range [][3]string{{pkgCtlog, "pool", "byHash"}, {pkgCtlog, "Log", "inSequencing"}} {
+			pts = append(pts, f.Find(func(n ast.Node) bool {
+				ix, ok := n.(*ast.IndexExpr)
+				if !ok {
+					return false
+				}
+				_, ok = fieldSel(info, ix.X, l[0], l[1], l[2])
+				return ok
+			})...)
+		}
+		var bad []string
+		for _, s := range pts {
+			if ls.At(s.P)[mkey] < lockW {
+				bad = append(bad, s.Pos())
+			}
+		}
+		if len(bad) > 0 {
+			c.Bad(f.Name+" lookups under the lock", bad[0], "a duplicate lookup or the insertion is made without the pool lock held ("+strings.Join(bad, ", ")+"): the answer can be stale when the leaf is inserted")
+		} else {
+			c.add(Result{Instance: f.Name + " lookups under the lock", Verdict: Discharged, Sites: sitePositions(pts), Evals: len(pts), Detail: "poolMu is in the must-lockset at all lookups and at the insertion"})
+		}
 	}
 	// cacheGet computes the same key from its parameter
 	if cgf := c.Fn("ctlog.(*Log).cacheGet"); cgf != nil {
